@@ -7,12 +7,26 @@ VERIF = os.path.dirname(os.path.dirname(os.path.abspath(__file__)))
 src = open(os.path.join(VERIF, 'coq/Gen/Consts.v')).read()
 mod = src[src.index('Module ReSrc.'):src.index('End ReSrc.')]
 groups = {}
+
+
+def group_of(name):
+    """One snapshot file per owner: the property whose statement file imports it (a changed regex text then breaks that
+    property's build and is reported by its check): util -> C20, wcmatch -> C04, glob -> C16, the NODIR filters -> C02,
+    RE_POSIX -> C01, the rest of _wcparse (drives, magic sets, tilde, anchors: what escape and the drive scanner read) -> C09."""
+    g = name.split('_')[0]
+    if g == 'wcparse' and 'NO_DIR' in name:
+        return 'wcparse_nodir'
+    if g == 'wcparse' and 'RE_POSIX' in name:
+        return 'wcparse_posix'
+    return g
+
+
 for m in re.finditer(r'Definition (\w+) : list N := (.*?)\. \(\* flags: (.*?) \*\)', mod):
     name, val, fl = m.group(1), m.group(2), m.group(3)
-    g = name.split('_')[0]
+    g = group_of(name)
     groups.setdefault(g, []).append('Lemma pin_%s : ReSrc.%s = %s.\nProof. reflexivity. Qed.' % (name, name, val))
 for m in re.finditer(r'Definition (\w+_flags) : string := (".*?"%string)\.', mod):
-    g = m.group(1).split('_')[0]
+    g = group_of(m.group(1))
     groups.setdefault(g, []).append('Lemma pin_%s : ReSrc.%s = %s.\nProof. reflexivity. Qed.' % (m.group(1), m.group(1), m.group(2)))
 for g, lemmas in groups.items():
     out = ['(* GENERATED ONCE by tools/mkpinned.py (committed snapshot; not regenerated at check time). *)',
